@@ -83,6 +83,13 @@ def main(argv=None):
         budget = a.budget if a.budget is not None else p[tier]["budget_s"]
         te = time.time()
         results = runner.run_batch(e, master, tier, n, a.workers, budget, a.first_index)
+        if os.environ.get("VERIF_SELFTEST_FLAKE") == "%s:%s" % (e.name, tier):
+            # self-test of the re-execution gate below: one batch result is given an alarm its run does not produce
+            for r in results:
+                if not r.get("err") and r.get("i") == a.first_index + 60:
+                    r["violations"] = list(r["violations"]) + [{"property": prop, "oracle": "selftest_flake", "detail": {},
+                                                                 "sig": {"property": prop, "oracle": "selftest_flake"}}]
+                    r["fp"] = "flake"
         agg["planned"] += n
         st = {"planned": n, "executed": 0, "wall_s": 0.0}
         for r in results:
@@ -133,10 +140,48 @@ def main(argv=None):
 
     # ---- verdicts
     rc = 0
-    for f in findings:
-        if f.get("status") == "open" and f["id"] in known_hit:
-            print("KNOWN-FINDING: property=%s %s [%s, hit %d times in this run]" %
-                  (prop, f["text"], f["id"], known_hit[f["id"]]))
+    # ---- a violation counts only if re-executing its run in a fresh process reproduces it ("one seed is one exactly
+    # repeatable execution"): per signature, up to three of the runs that showed it are executed again; a signature
+    # none of them shows again cannot be delivered with a replay file, is counted as an unreproduced alarm (a leak of
+    # nondeterminism in harness or library, bounded below) and is not reported as a violation.  Whatever the
+    # re-execution shows instead is judged like any other result (known findings are matched on it).
+    unreproduced = []
+    if new_violations:
+        by_sig = {}
+        for e, r, v in new_violations:
+            by_sig.setdefault(json.dumps(v["sig"], sort_keys=True), []).append((e, r, v))
+        confirmed, rerun_cache = [], {}
+        n_ok = 0
+        for key, lst in by_sig.items():
+            ok = n_ok >= 5              # the verdict is settled; further signatures are only listed
+            for e, r, v in ([] if ok else lst[:3]):
+                ck = (e.name, r.get("i"))
+                if ck not in rerun_cache:
+                    case = r.get("case") or runner.gen_case(e, master, r["i"], tier)
+                    rerun_cache[ck] = runner.run_case_forked(e, case)
+                again = rerun_cache[ck]
+                if any(json.dumps(w["sig"], sort_keys=True) == key for w in again.get("violations", [])):
+                    ok = True
+                    break
+            if ok:
+                n_ok += 1
+                confirmed.extend(lst)
+            else:
+                unreproduced.append({"sig": json.loads(key), "runs": [[e.name, r.get("i")] for e, r, v in lst[:5]], "n": len(lst)})
+                print("UNREPRODUCED-ALARM (not a violation: re-executing the run does not show it) %s runs=%s" % (
+                    key, [[e.name, r.get("i")] for e, r, v in lst[:5]]))
+        for (en, i), again in rerun_cache.items():
+            if again.get("fp") != batch_fp.get((en, i)):
+                for w in again.get("violations", []):
+                    if w["property"] != prop:
+                        continue
+                    f = runner.match_finding(w, findings)
+                    if f is not None:
+                        known_hit[f["id"]] = known_hit.get(f["id"], 0) + 1
+                    elif not any(json.dumps(w["sig"], sort_keys=True) == json.dumps(v["sig"], sort_keys=True) for _, _, v in confirmed):
+                        confirmed.append((engines[en], dict(again, i=i), w))
+        new_violations = confirmed
+    agg["unreproduced"] = unreproduced
 
     if a.list_sigs:
         cnt = {}
@@ -145,6 +190,11 @@ def main(argv=None):
             cnt[key] = cnt.get(key, 0) + 1
         for key, n in sorted(cnt.items(), key=lambda kv: -kv[1]):
             print("SIG %5d %s" % (n, key))
+    for f in findings:
+        if f.get("status") == "open" and f["id"] in known_hit:
+            print("KNOWN-FINDING: property=%s %s [%s, hit %d times in this run]" %
+                  (prop, f["text"], f["id"], known_hit[f["id"]]))
+
     replay_paths = []
     if new_violations:
         rc = 1
@@ -175,6 +225,8 @@ def main(argv=None):
         harness_err = "nondeterminism leak: %s" % det["mismatches"][:3]
     elif agg["evaluations"] == 0:
         harness_err = "no run executed"
+    elif sum(u["n"] for u in agg["unreproduced"]) > max(2, agg["evaluations"] // 2000):
+        harness_err = "too many alarms that do not reproduce on re-execution: %s" % agg["unreproduced"][:3]
     else:
         und = agg["counts"].get("undecided", 0)
         dec = agg["counts"].get("decisions", 0)
@@ -230,6 +282,7 @@ def _write_evidence(prop, plan, engines, tier, master, agg, per_engine, det, kno
                                  "method": "each seed: fingerprint from the 16-worker batch vs re-run single-worker in a forked "
                                            "child vs re-run in a fresh interpreter under PYTHONHASHSEED=12345; all three must agree"},
         "known_findings_hit": known_hit,
+        "unreproduced_alarms": agg.get("unreproduced", []),
         "harness_error": herr,
         "cuqi_path": os.path.dirname(cuqi.__file__),
         "exhaustive": False,
